@@ -1,5 +1,6 @@
 import FormulaicVerif.Engines.Json
 import FormulaicVerif.Model.Constraints
+import FormulaicVerif.Model.ConstraintParse
 namespace FormulaicVerif.Engines.C16
 open Lean FormulaicVerif.Engines FormulaicVerif.Model.Constraints
 
@@ -58,6 +59,34 @@ def parsedOf (j : Json) : Option Parsed :=
     | .ok a => (nodeOf a).map .ast
     | _ => some .empty
 
+def charInfos (j : Json) : List FormulaicVerif.Model.CharInfo :=
+  let s := (jstr j "s").toList
+  let w := (jstr j "w").toList
+  let sp := (jstr j "sp").toList
+  (s.zip (w.zip sp)).map (fun (c, (a, b)) => { c := c, word := a == '1', space := b == '1' })
+
+def kindStr : Kind → String
+  | .name => "name" | .python => "python" | .value => "value"
+
+def op1Str : Op1 → String
+  | .pos => "+" | .neg => "-"
+
+def op2Str : Op2 → String
+  | .comma => "," | .eq => "=" | .add => "+" | .sub => "-" | .mul => "*" | .div => "/"
+
+def nodeJ : Node → Json
+  | .leaf k t => Json.mkObj [("k", Json.str (kindStr k)), ("t", Json.str t)]
+  | .un o a => Json.mkObj [("op", Json.str (op1Str o)), ("args", jlist [nodeJ a])]
+  | .bin o a b => Json.mkObj [("op", Json.str (op2Str o)), ("args", jlist [nodeJ a, nodeJ b])]
+
+def parsedJ : Parsed → Json
+  | .empty => Json.mkObj [("empty", Json.bool true)]
+  | .ast n => Json.mkObj [("ast", nodeJ n)]
+  | .error c => Json.mkObj [("error", Json.str c)]
+
+/-- the model's own parse of one string (tokenizer + shunting-yard over the live constraint table) -/
+def modelParse (ci : Json) : Option Parsed := FormulaicVerif.Model.ConstraintParse.parse (charInfos ci)
+
 /-- the parser as a parameter: a finite table string ↦ result, supplied by the harness -/
 def parseFn (tbl : List (String × Parsed)) (s : String) : Parsed :=
   match tbl.find? (fun p => p.1 == s) with
@@ -96,15 +125,19 @@ def altSpec (names : List String) (parse : String → Parsed) : Spec → List St
 /-- request: {"names": [...], "form": "str"|"list"|"dict", "spec": ..., "parses": [[string, parsed], ...]} -/
 def handleOne (j : Json) : Json :=
   let names := strs j "names"
+  -- [string, parse reported by the real parser] (parser as a parameter), or
+  -- [string, …, {s,w,sp}]: the model parses the string itself and the harness compares the two parses
   let tbl? : Option (List (String × Parsed)) := (jarr j "parses").mapM (fun kv =>
     match asArr kv with
     | [k, v] => (parsedOf v).map (fun p => (asStr k, p))
+    | [k, _, ci] => (modelParse ci).map (fun p => (asStr k, p))
     | _ => none)
   match tbl?, specOf j with
   | some tbl, some spec =>
+    let pm := ("pm", jlist (tbl.map (fun kv => jlist [Json.str kv.1, parsedJ kv.2])))
     match fromSpec id names (parseFn tbl) spec with
-    | .ok (A, b) => Json.mkObj [("A", jlist (A.map (fun r => jstrs (r.map ratStr)))), ("b", jstrs (b.map ratStr))]
-    | .error e => Json.mkObj [("error", Json.str e.cls), ("alt", jstrs (altSpec names (parseFn tbl) spec))]
+    | .ok (A, b) => Json.mkObj [("A", jlist (A.map (fun r => jstrs (r.map ratStr)))), ("b", jstrs (b.map ratStr)), pm]
+    | .error e => Json.mkObj [("error", Json.str e.cls), ("alt", jstrs (altSpec names (parseFn tbl) spec)), pm]
   | _, _ => jerr "unmodelled"
 
 /-- one request, or a history {"steps": [request, ...]}: the model is a pure function of
